@@ -11,7 +11,19 @@
 //! documents containing the term; options ordered by score descending then text; two runs of the
 //! same request agree; the size-s answer is the head of the size-3 answer; the answer is the same
 //! (up to score tie classes, rel. tol. 1e-5) for every segment layout of the same corpus.
+//! Completeness: whenever the typed text is at least min_length characters long (or no fuzzy
+//! options are given), min(size, admissible terms) options are returned, and all admissible terms
+//! when they fit into `size`. Edit distance is computed over *characters* (Levenshtein; a
+//! transposition is additionally tolerated as one edit on the membership side only).
 //! The score *value* is not pinned by the documentation and is only observed (coverage).
+//!
+//! Family M (run first): multi-byte slice. Tokens carry a 2-, 2-, 3- or 4-byte alphanumeric
+//! character (é, я, 日, 𠮷) at their start, middle or end, together with their ASCII neighbours
+//! (insertion / deletion / substitution of the multi-byte character, and of an ASCII character next
+//! to it), so that (typed text, indexed term) pairs at character distance 0, 1, 2 have byte-length
+//! differences of up to 7. Corpora: every single shape, every pair of shapes, and the whole
+//! dictionary; typed texts: every token + an upper-case spelling, a trailing emoji (😀 is not
+//! alphanumeric, so it never is part of a token), and two short stems; sizes {1, 2, covering}.
 
 use std::collections::{BTreeMap, BTreeSet};
 use std::sync::atomic::{AtomicBool, AtomicU64, Ordering};
@@ -30,6 +42,8 @@ use crate::Ctx;
 const TOKENS: [&str; 5] = ["ab", "abc", "abd", "b", "ba"];
 const PREFIXES: [&str; 8] = ["a", "ab", "abc", "abd", "b", "ba", "c", "Ab"];
 const MAX_SIZE: usize = 3;
+/// covering size of family M (>= its whole dictionary of 28 terms, < every scan cap)
+const MB_COVERING_SIZE: usize = 30;
 
 /// Genuine defect (collect_completion_candidates): both completion paths count every (segment,
 /// matching term) pair against the scan cap and stop scanning the remaining segments once the
@@ -76,7 +90,7 @@ impl Spec {
   }
 }
 
-fn fuzzy_configs() -> Vec<Option<Fz>> {
+fn fuzzy_configs(with_cap_slice: bool) -> Vec<Option<Fz>> {
   let mut out = vec![None];
   for me in [1usize, 2] {
     for pl in [0usize, 1] {
@@ -85,22 +99,63 @@ fn fuzzy_configs() -> Vec<Option<Fz>> {
       }
     }
   }
-  // scan-cap slice: 5 indexed terms < cap 6
-  out.push(Some(Fz { max_edits: 1, prefix_length: 0, min_length: 1, max_expansions: Some(6) }));
-  out.push(Some(Fz { max_edits: 2, prefix_length: 0, min_length: 1, max_expansions: Some(6) }));
+  if with_cap_slice {
+    // scan-cap slice: 5 indexed terms < cap 6
+    out.push(Some(Fz { max_edits: 1, prefix_length: 0, min_length: 1, max_expansions: Some(6) }));
+    out.push(Some(Fz { max_edits: 2, prefix_length: 0, min_length: 1, max_expansions: Some(6) }));
+  }
   out
 }
 
-fn specs() -> Vec<Spec> {
+/// `sizes` ascending; the last one is the covering size of its (prefix, fuzzy) group.
+fn specs(prefixes: &[String], sizes: &[usize], with_cap_slice: bool) -> Vec<Spec> {
   let mut out: Vec<Spec> = Vec::new();
-  for (fi, fz) in fuzzy_configs().into_iter().enumerate() {
-    for (pi, p) in PREFIXES.iter().enumerate() {
+  for (fi, fz) in fuzzy_configs(with_cap_slice).into_iter().enumerate() {
+    for (pi, p) in prefixes.iter().enumerate() {
       let base = out.len();
-      for size in 1..=MAX_SIZE {
-        out.push(Spec { name: format!("f{fi:02}p{pi}s{size}"), prefix: p.to_string(), size, fuzzy: fz.clone(), covering: base + MAX_SIZE - 1 });
+      for size in sizes {
+        out.push(Spec { name: format!("f{fi:02}p{pi:02}s{size:02}"), prefix: p.to_string(), size: *size, fuzzy: fz.clone(), covering: base + sizes.len() - 1 });
       }
     }
   }
+  out
+}
+
+/// Family M: alphanumeric characters of 2, 2, 3 and 4 UTF-8 bytes.
+const MB_CHARS: [&str; 4] = ["é", "я", "日", "𠮷"];
+
+/// Family M tokens. For every multi-byte character X: X at the start / middle / end of the ASCII
+/// stem "ab" (insertion or deletion of X relative to "ab", substitution relative to "acb" and to
+/// one another), and ASCII edits next to X: "aXc" (substitution), "aXbc" (insertion), "aX"
+/// (deletion). Two tokens are two multi-byte insertions away from "ab".
+fn mb_tokens() -> Vec<String> {
+  let mut out: Vec<String> = vec!["ab".into(), "acb".into()];
+  for x in MB_CHARS {
+    out.push(format!("{x}ab"));
+    out.push(format!("a{x}b"));
+    out.push(format!("ab{x}"));
+    out.push(format!("a{x}c"));
+    out.push(format!("a{x}bc"));
+    out.push(format!("a{x}"));
+  }
+  out.push("aéяb".into());
+  out.push("a日𠮷b".into());
+  out
+}
+
+/// Family M typed texts: every token, an upper-case ASCII spelling, a trailing non-alphanumeric
+/// 4-byte character (analyzes to "ab"), and two short stems that are no indexed term.
+fn mb_prefixes() -> Vec<String> {
+  let mut out = mb_tokens();
+  out.extend(["Aéb", "ab😀", "a", "aя"].iter().map(|s| s.to_string()));
+  out
+}
+
+/// Family M document shapes: one token per document, plus one document whose text contains an
+/// emoji between two tokens.
+fn mb_shapes() -> Vec<String> {
+  let mut out = mb_tokens();
+  out.push("ab😀 a日b".into());
   out
 }
 
@@ -192,6 +247,15 @@ fn admissible(p: &str, term: &str, fz: Option<&Fz>) -> bool {
   }
 }
 
+/// Must `term` be offered for the analyzed prefix `p` (given room)? Character-level Levenshtein
+/// distance, exactly as the property states; a lower bound of `admissible`.
+fn required_term(p: &str, term: &str, fz: Option<&Fz>) -> bool {
+  match fz {
+    None => term.starts_with(p),
+    Some(f) => lev(p, term) <= f.max_edits && term.starts_with(&char_prefix(p, f.prefix_length.min(p.chars().count()))),
+  }
+}
+
 /// Everything the oracle knows about one corpus (layout independent).
 struct Corpus {
   /// shape index per doc, sorted
@@ -208,19 +272,38 @@ struct Shared {
   /// analyzed prefix per spec
   analyzed: Vec<String>,
   request: SearchRequest,
+  /// the largest (covering) size of the family's requests
+  max_size: usize,
+  family: &'static str,
 }
 
-fn shared() -> Shared {
+fn shared(family: &'static str) -> Shared {
   let sch = schema(schema_text_default());
   let an = sch.build_analyzers().expect("analyzers");
   let ia = an.index_analyzer("body").expect("index analyzer");
   let sa = an.search_analyzer("body").expect("search analyzer");
-  let shape_texts = shapes();
-  let shape_terms = shape_texts.iter().map(|t| ia.analyze(t).into_iter().map(|t| t.text).collect()).collect();
-  let specs = specs();
+  let (shape_texts, specs, max_size) = if family == "M" {
+    let sizes = [1, 2, MB_COVERING_SIZE];
+    (mb_shapes(), specs(&mb_prefixes(), &sizes, false), MB_COVERING_SIZE)
+  } else {
+    let prefixes: Vec<String> = PREFIXES.iter().map(|s| s.to_string()).collect();
+    let sizes: Vec<usize> = (1..=MAX_SIZE).collect();
+    (shapes(), specs(&prefixes, &sizes, true), MAX_SIZE)
+  };
+  let shape_terms: Vec<BTreeSet<String>> = shape_texts.iter().map(|t| ia.analyze(t).into_iter().map(|t| t.text).collect()).collect();
+  let nterms = shape_terms.iter().flatten().collect::<BTreeSet<_>>().len();
+  if nterms > max_size && family == "M" {
+    vcore::ev::machinery_failure("C22: family M covering size is smaller than its dictionary");
+  }
+  // a typed text that analyzes to several tokens is outside the alphabet (docs are silent)
+  for s in &specs {
+    if sa.analyze(&s.prefix).len() > 1 {
+      vcore::ev::machinery_failure(&format!("C22: typed text {:?} analyzes to more than one token", s.prefix));
+    }
+  }
   let analyzed = specs.iter().map(|s| sa.analyze(&s.prefix).last().map(|t| t.text.clone()).unwrap_or_else(|| s.prefix.clone())).collect();
   let request = build_request(&specs);
-  Shared { shape_texts, shape_terms, specs, analyzed, request }
+  Shared { shape_texts, shape_terms, specs, analyzed, request, max_size, family }
 }
 
 fn corpus_of(sh: &Shared, shapes: &[usize]) -> Corpus {
@@ -371,10 +454,14 @@ fn pair_count(sh: &Shared, order: &[usize], layout: &[usize], p: &str, fz: Optio
   (pairs, all.len())
 }
 
+#[derive(Default)]
 struct Stats {
   nontrivial: u64,
   incomplete: u64,
   score_model_disagree: u64,
+  /// cases whose required set holds a term whose byte length differs from the typed text's by
+  /// more than max_edits (character distance <= max_edits): byte/char confusions show here
+  byte_vs_char: u64,
   listings: BTreeSet<String>,
 }
 
@@ -398,12 +485,12 @@ fn judge(sh: &Shared, corpus: &Corpus, order: &[usize], layout: &[usize], resp: 
     // before the last segments
     let cap_sig = || -> Option<&'static str> {
       let (eff, sig) = match fz {
-        None => ((5 * MAX_SIZE).max(PREFIX_SCAN_MIN), SIG_CAP_PREFIX),
+        None => ((5 * sh.max_size).max(PREFIX_SCAN_MIN), SIG_CAP_PREFIX),
         Some(f) => {
           if p.chars().count() < f.min_length {
             return None;
           }
-          (f.max_expansions.unwrap_or(DEFAULT_MAX_EXPANSIONS).max(MAX_SIZE), SIG_CAP_FUZZY)
+          (f.max_expansions.unwrap_or(DEFAULT_MAX_EXPANSIONS).max(sh.max_size), SIG_CAP_FUZZY)
         }
       };
       let (pairs, terms) = pair_count(sh, order, layout, p, fz);
@@ -454,17 +541,41 @@ fn judge(sh: &Shared, corpus: &Corpus, order: &[usize], layout: &[usize], resp: 
         }
       }
     }
+    // completeness: demanded when no fuzzy options are given or the typed text has at least
+    // min_length characters (what a shorter text yields is not documented)
+    let demand_complete = fz.map_or(true, |f| p.chars().count() >= f.min_length);
+    if demand_complete {
+      let required: Vec<&String> = corpus.df.keys().filter(|t| required_term(p, t, fz)).collect();
+      if required.iter().any(|t| t.len().abs_diff(p.len()) > fz.map_or(usize::MAX, |f| f.max_edits)) {
+        stats.byte_vs_char += 1;
+      }
+      if bad.is_none() {
+        let missing: Vec<String> = required
+          .iter()
+          .filter(|t| !o.iter().any(|x| &x.text == **t))
+          .map(|t| match fz {
+            None => format!("{t:?}"),
+            Some(_) => format!("{t:?} ({} character edit(s) from {p:?}; {} vs {} bytes)", lev(p, t), t.len(), p.len()),
+          })
+          .collect();
+        if o.len() < spec.size.min(required.len()) {
+          bad = Some(format!("only {} option(s) for size {} although {} indexed terms qualify; missing: {}", o.len(), spec.size, required.len(), missing.join(", ")));
+        } else if candidates.len() <= spec.size && !missing.is_empty() {
+          bad = Some(format!("all {} qualifying indexed terms fit into size {} but these are missing: {}", required.len(), spec.size, missing.join(", ")));
+        }
+      }
+    }
     if bad.is_none() {
       let o2 = resp2.get(&spec.name).unwrap_or(&empty);
       if !same_options(o, o2, resp.get(&sh.specs[spec.covering].name).unwrap_or(&empty)) {
         bad = Some(format!("a second run of the same request on the same reader returned {}", opts_str(o2)));
       }
     }
-    if bad.is_none() && spec.size < MAX_SIZE {
+    if bad.is_none() && spec.size < sh.max_size {
       let cover = resp.get(&sh.specs[spec.covering].name).unwrap_or(&empty);
       let head = &cover[..cover.len().min(spec.size)];
       if !same_options(head, o, cover) {
-        bad = Some(format!("it is not the head of the size {MAX_SIZE} answer {} of the same index", opts_str(cover)));
+        bad = Some(format!("it is not the head of the size {} answer {} of the same index", sh.max_size, opts_str(cover)));
       }
     }
     let mut sig = None;
@@ -485,7 +596,7 @@ fn judge(sh: &Shared, corpus: &Corpus, order: &[usize], layout: &[usize], resp: 
     if !o.is_empty() && !candidates.is_empty() && candidates.len() < corpus.df.len() {
       stats.nontrivial += 1;
     }
-    if o.len() < spec.size.min(candidates.len()) {
+    if !demand_complete && o.len() < spec.size.min(candidates.len()) {
       stats.incomplete += 1;
     }
     if bad.is_none() {
@@ -512,11 +623,13 @@ fn judge(sh: &Shared, corpus: &Corpus, order: &[usize], layout: &[usize], resp: 
 }
 
 fn case_json(sh: &Shared, order: &[usize], layout: &[usize], spec: usize) -> Value {
-  json!({"engine": "inputmc-suggest", "world": mk_world(sh, order, layout).to_json(), "shape_order": order, "layout": layout, "spec": spec, "suggest": sh.specs[spec].to_json()})
+  json!({"engine": "inputmc-suggest", "family": sh.family, "world": mk_world(sh, order, layout).to_json(), "shape_order": order, "layout": layout, "spec": spec, "suggest": sh.specs[spec].to_json()})
 }
 
 struct Failure {
-  key: (usize, usize, usize),
+  /// (family rank, corpus, world, spec): reporting order, simplest first
+  key: (usize, usize, usize, usize),
+  fam: usize,
   sig: Option<&'static str>,
   order: Vec<usize>,
   layout: Vec<usize>,
@@ -524,31 +637,179 @@ struct Failure {
   what: String,
 }
 
+/// One corpus and the layouts to run it in (None: every layout, `layouts_of`).
+struct Job {
+  shapes: Vec<usize>,
+  lays: Option<Vec<(Vec<usize>, Vec<usize>)>>,
+  /// failures of this job are always stored individually
+  early: bool,
+  /// position in the reporting order
+  rank: usize,
+}
+
+#[derive(Default)]
+struct Acc {
+  worlds: AtomicU64,
+  evals: AtomicU64,
+  nontrivial: AtomicU64,
+  incomplete: AtomicU64,
+  score_disagree: AtomicU64,
+  byte_vs_char: AtomicU64,
+  multi_segment_worlds: AtomicU64,
+  listings: Mutex<BTreeSet<String>>,
+  failures: Mutex<Vec<Failure>>,
+  stored: AtomicU64,
+  dropped: Mutex<BTreeMap<Option<&'static str>, u64>>,
+  timed_out: AtomicBool,
+}
+
+/// memory bound: failures are kept individually for early jobs, anything unexplained, and up to
+/// STORE_CAP overall; the rest is only counted per class
+const STORE_CAP: u64 = 20_000;
+
+fn explore(rep: &Reporter, sh: &Shared, fam: usize, jobs: &[Job], acc: &Acc, deadline: f64) {
+  let nspecs = sh.specs.len() as u64;
+  jobs.par_iter().for_each(|job| {
+    if rep.elapsed_s() > deadline {
+      acc.timed_out.store(true, Ordering::Relaxed);
+      return;
+    }
+    let shapes = &job.shapes;
+    let corpus = corpus_of(sh, shapes);
+    let mut st = Stats::default();
+    let mut reference: Option<Resp> = None;
+    let lays = job.lays.clone().unwrap_or_else(|| layouts_of(shapes));
+    for (wi, (order, layout)) in lays.into_iter().enumerate() {
+      let idx = mk_world(sh, &order, &layout).build();
+      let reader = idx.reader().expect("reader");
+      acc.worlds.fetch_add(1, Ordering::Relaxed);
+      if layout.len() > 1 {
+        acc.multi_segment_worlds.fetch_add(1, Ordering::Relaxed);
+      }
+      let (a, b) = match (run_request(&reader, &sh.request), run_request(&reader, &sh.request)) {
+        (Ok(a), Ok(b)) => (a, b),
+        (Err(e), _) | (_, Err(e)) => {
+          acc.failures.lock().push(Failure { key: (fam, job.rank, wi, 0), fam, sig: None, order, layout, spec: 0, what: format!("the batched suggest request failed: {e}") });
+          continue;
+        }
+      };
+      acc.evals.fetch_add(nspecs, Ordering::Relaxed);
+      let fs = judge(sh, &corpus, &order, &layout, &a, &b, reference.as_ref(), None, &mut st);
+      if !fs.is_empty() {
+        for f in fs {
+          if f.sig.is_none() || job.early || acc.stored.load(Ordering::Relaxed) < STORE_CAP {
+            acc.stored.fetch_add(1, Ordering::Relaxed);
+            acc.failures.lock().push(Failure { key: (fam, job.rank, wi, f.spec), fam, sig: f.sig, order: order.clone(), layout: layout.clone(), spec: f.spec, what: f.what });
+          } else {
+            *acc.dropped.lock().entry(f.sig).or_insert(0) += 1;
+          }
+        }
+      } else if layout.len() > 1 && !rep.sample_full() {
+        let s = &sh.specs[sh.specs.len() / 2];
+        rep.sample(json!({"family": sh.family, "docs": order.iter().map(|s| sh.shape_texts[*s].clone()).collect::<Vec<_>>(), "layout": layout, "suggest": s.to_json(),
+          "options": a.get(&s.name).map(|o| opts_str(o))}));
+      }
+      if wi == 0 {
+        reference = Some(a);
+      }
+    }
+    acc.nontrivial.fetch_add(st.nontrivial, Ordering::Relaxed);
+    acc.incomplete.fetch_add(st.incomplete, Ordering::Relaxed);
+    acc.score_disagree.fetch_add(st.score_model_disagree, Ordering::Relaxed);
+    acc.byte_vs_char.fetch_add(st.byte_vs_char, Ordering::Relaxed);
+    let mut l = acc.listings.lock();
+    if l.len() < 4096 {
+      l.extend(st.listings);
+    }
+  });
+}
+
+/// Family M jobs: every single shape, every pair of shapes, and the whole dictionary (token i in
+/// 1 + i % 3 documents); each as one segment and one document per segment (the dictionary also in
+/// three chunks).
+fn mb_jobs(sh: &Shared) -> Vec<Job> {
+  let n = sh.shape_texts.len();
+  let mut jobs = Vec::new();
+  let two = |shapes: &Vec<usize>| vec![(shapes.clone(), vec![shapes.len()]), (shapes.clone(), vec![1; shapes.len()])];
+  for i in 0..n {
+    let shapes = vec![i];
+    jobs.push(Job { lays: Some(vec![(shapes.clone(), vec![1])]), shapes, early: true, rank: 0 });
+  }
+  for i in 0..n {
+    for j in i + 1..n {
+      let shapes = vec![i, j];
+      jobs.push(Job { lays: Some(two(&shapes)), shapes, early: true, rank: 0 });
+    }
+  }
+  let mut dict = Vec::new();
+  for i in 0..n {
+    for _ in 0..1 + i % 3 {
+      dict.push(i);
+    }
+  }
+  let mut lays = two(&dict);
+  let third = dict.len() / 3;
+  lays.push((dict.clone(), vec![third, third, dict.len() - 2 * third]));
+  jobs.push(Job { shapes: dict, lays: Some(lays), early: true, rank: 0 });
+  for (r, j) in jobs.iter_mut().enumerate() {
+    j.rank = r;
+  }
+  jobs
+}
+
+/// (typed text, indexed term) pairs of family M by character distance, and how many of them have
+/// a byte-length difference larger than the character distance allows for max_edits 1 / 2.
+fn mb_pair_stats(sh: &Shared) -> Value {
+  let terms: BTreeSet<&String> = sh.shape_terms.iter().flatten().collect();
+  let typed: BTreeSet<&String> = sh.analyzed.iter().collect();
+  let mut by_dist: BTreeMap<String, u64> = BTreeMap::new();
+  let mut byte_gap: BTreeMap<String, u64> = BTreeMap::new();
+  let mut max_gap = 0;
+  for p in &typed {
+    for t in &terms {
+      let d = lev(p, t);
+      if d <= 2 {
+        *by_dist.entry(format!("distance_{d}")).or_insert(0) += 1;
+        let gap = p.len().abs_diff(t.len());
+        max_gap = max_gap.max(gap);
+        for me in [1usize, 2] {
+          if d <= me && gap > me {
+            *byte_gap.entry(format!("within_{me}_edits_but_byte_lengths_differ_by_more")).or_insert(0) += 1;
+          }
+        }
+      }
+    }
+  }
+  json!({"typed_texts": typed.len(), "indexed_terms": terms.len(), "pairs_by_character_distance": by_dist, "pairs": byte_gap, "largest_byte_length_difference_within_2_edits": max_gap})
+}
+
 pub fn run(ctx: &Ctx) -> i32 {
   let mut rep = Reporter::new("C22", ctx.tier, "exploration");
   let quick = ctx.tier.is_quick();
-  let sh = shared();
+  // families in reporting / execution order: M (multi-byte slice), A (ASCII corpora x layouts), C
+  let fams: [Shared; 2] = [shared("M"), shared("A")];
   if let Some(path) = &ctx.replay {
     rep.set_replaying(true);
     let v: Value = serde_json::from_slice(&std::fs::read(path).expect("replay file")).expect("json");
     let cs = &v["case"];
+    let sh = if cs["family"] == "M" { &fams[0] } else { &fams[1] };
     let order: Vec<usize> = cs["shape_order"].as_array().expect("shape_order").iter().map(|x| x.as_u64().unwrap() as usize).collect();
     let layout: Vec<usize> = cs["layout"].as_array().expect("layout").iter().map(|x| x.as_u64().unwrap() as usize).collect();
     let spec = cs["spec"].as_u64().expect("spec") as usize;
     let mut sorted = order.clone();
     sorted.sort();
-    let corpus = corpus_of(&sh, &sorted);
+    let corpus = corpus_of(sh, &sorted);
     let run = || {
-      let ref_idx = mk_world(&sh, &sorted, &[sorted.len()]).build();
+      let ref_idx = mk_world(sh, &sorted, &[sorted.len()]).build();
       let ref_resp = run_request(&ref_idx.reader().expect("reader"), &sh.request).expect("reference request");
-      let idx = mk_world(&sh, &order, &layout).build();
+      let idx = mk_world(sh, &order, &layout).build();
       let reader = idx.reader().expect("reader");
       let (a, b) = match (run_request(&reader, &sh.request), run_request(&reader, &sh.request)) {
         (Ok(a), Ok(b)) => (a, b),
         (Err(e), _) | (_, Err(e)) => return Some(format!("request failed: {e}")),
       };
-      let mut st = Stats { nontrivial: 0, incomplete: 0, score_model_disagree: 0, listings: BTreeSet::new() };
-      judge(&sh, &corpus, &order, &layout, &a, &b, Some(&ref_resp), Some(spec), &mut st).into_iter().next().map(|f| f.what)
+      let mut st = Stats::default();
+      judge(sh, &corpus, &order, &layout, &a, &b, Some(&ref_resp), Some(spec), &mut st).into_iter().next().map(|f| f.what)
     };
     let (a, b) = (run(), run());
     if a.is_some() != b.is_some() {
@@ -566,130 +827,95 @@ pub fn run(ctx: &Ctx) -> i32 {
     };
   }
 
+  let deadline = if quick { 35.0 } else { 800.0 };
+  let acc = Acc::default();
+
+  // ---- family M first: a wall budget cannot skip it
+  let m_jobs = mb_jobs(&fams[0]);
+  explore(&rep, &fams[0], 0, &m_jobs, &acc, deadline);
+  let m_worlds = acc.worlds.load(Ordering::Relaxed);
+  let m_cases = acc.evals.load(Ordering::Relaxed);
+  let m_byte_vs_char = acc.byte_vs_char.load(Ordering::Relaxed);
+  let m_nontrivial = acc.nontrivial.load(Ordering::Relaxed);
+  let m_wall = rep.elapsed_s();
+
+  // ---- family C (many segments), then family A simplest first
+  let sh = &fams[1];
   let max_docs = if quick { 3 } else { 4 };
   let nshapes = sh.shape_texts.len();
-  // family C first (so that a wall-clock cap never drops it), then family A simplest first
   let many_shape = sh.shape_texts.iter().position(|t| t == "ab abc").expect("shape");
-  let mut corpora: Vec<Vec<usize>> = MANY_SEGMENTS.map(|k| vec![many_shape; k]).collect();
-  let family_c = corpora.len();
-  for n in 1..=max_docs {
-    corpora.extend(multisets(nshapes, n));
-  }
-  let n4_start = corpora.iter().position(|c| c.len() == 4).unwrap_or(corpora.len());
-  let deadline = if quick { 35.0 } else { 800.0 };
-  let timed_out = AtomicBool::new(false);
-  let worlds = AtomicU64::new(0);
-  let evals = AtomicU64::new(0);
-  let nontrivial = AtomicU64::new(0);
-  let incomplete = AtomicU64::new(0);
-  let score_disagree = AtomicU64::new(0);
-  let multi_segment_worlds = AtomicU64::new(0);
-  let listings: Mutex<BTreeSet<String>> = Mutex::new(BTreeSet::new());
-  let failures: Mutex<Vec<Failure>> = Mutex::new(Vec::new());
-  // memory bound: failures are kept individually for corpora of <= 3 documents, family C, anything
-  // unexplained, and up to STORE_CAP overall; the rest is only counted per class
-  const STORE_CAP: u64 = 20_000;
-  let stored = AtomicU64::new(0);
-  let dropped: Mutex<BTreeMap<Option<&'static str>, u64>> = Mutex::new(BTreeMap::new());
-  let nspecs = sh.specs.len() as u64;
-
-  corpora.par_iter().enumerate().for_each(|(ci, shapes)| {
-    if rep.elapsed_s() > deadline {
-      timed_out.store(true, Ordering::Relaxed);
-      return;
-    }
-    let corpus = corpus_of(&sh, shapes);
-    let mut st = Stats { nontrivial: 0, incomplete: 0, score_model_disagree: 0, listings: BTreeSet::new() };
-    let mut reference: Option<Resp> = None;
-    // (the first 1200 corpora of the 4-document layer are always kept so that the reported minimal
-    // witness does not depend on scheduling)
-    let early = ci < family_c || shapes.len() <= 3 || ci < n4_start + 1200;
-    let lays = if ci < family_c { vec![(shapes.clone(), vec![shapes.len()]), (shapes.clone(), vec![1; shapes.len()])] } else { layouts_of(shapes) };
+  let mut jobs: Vec<Job> = Vec::new();
+  for k in MANY_SEGMENTS {
+    let shapes = vec![many_shape; k];
     // failures of family C sort after those of family A (their worlds are larger)
-    let ci = if ci < family_c { corpora.len() + ci } else { ci };
-    for (wi, (order, layout)) in lays.into_iter().enumerate() {
-      let idx = mk_world(&sh, &order, &layout).build();
-      let reader = idx.reader().expect("reader");
-      worlds.fetch_add(1, Ordering::Relaxed);
-      if layout.len() > 1 {
-        multi_segment_worlds.fetch_add(1, Ordering::Relaxed);
+    jobs.push(Job { lays: Some(vec![(shapes.clone(), vec![k]), (shapes.clone(), vec![1; k])]), shapes, early: true, rank: 1_000_000 + k });
+  }
+  let family_c = jobs.len();
+  let mut n4_seen = 0;
+  for n in 1..=max_docs {
+    for shapes in multisets(nshapes, n) {
+      // (the first 1200 corpora of the 4-document layer are always kept so that the reported
+      // minimal witness does not depend on scheduling)
+      let early = n <= 3 || n4_seen < 1200;
+      if n == 4 {
+        n4_seen += 1;
       }
-      let (a, b) = match (run_request(&reader, &sh.request), run_request(&reader, &sh.request)) {
-        (Ok(a), Ok(b)) => (a, b),
-        (Err(e), _) | (_, Err(e)) => {
-          failures.lock().push(Failure { key: (ci, wi, 0), sig: None, order, layout, spec: 0, what: format!("the batched suggest request failed: {e}") });
-          continue;
-        }
-      };
-      evals.fetch_add(nspecs, Ordering::Relaxed);
-      let fs = judge(&sh, &corpus, &order, &layout, &a, &b, reference.as_ref(), None, &mut st);
-      if !fs.is_empty() {
-        for f in fs {
-          if f.sig.is_none() || early || stored.load(Ordering::Relaxed) < STORE_CAP {
-            stored.fetch_add(1, Ordering::Relaxed);
-            failures.lock().push(Failure { key: (ci, wi, f.spec), sig: f.sig, order: order.clone(), layout: layout.clone(), spec: f.spec, what: f.what });
-          } else {
-            *dropped.lock().entry(f.sig).or_insert(0) += 1;
-          }
-        }
-      } else if layout.len() > 1 && !rep.sample_full() {
-        let s = &sh.specs[sh.specs.len() / 2];
-        rep.sample(json!({"docs": order.iter().map(|s| sh.shape_texts[*s].clone()).collect::<Vec<_>>(), "layout": layout, "suggest": s.to_json(),
-          "options": a.get(&s.name).map(|o| opts_str(o))}));
-      }
-      if wi == 0 {
-        reference = Some(a);
-      }
+      let rank = jobs.len();
+      jobs.push(Job { shapes, lays: None, early, rank });
     }
-    nontrivial.fetch_add(st.nontrivial, Ordering::Relaxed);
-    incomplete.fetch_add(st.incomplete, Ordering::Relaxed);
-    score_disagree.fetch_add(st.score_model_disagree, Ordering::Relaxed);
-    let mut l = listings.lock();
-    if l.len() < 4096 {
-      l.extend(st.listings);
-    }
-  });
-  rep.add_evals(evals.load(Ordering::Relaxed));
+  }
+  explore(&rep, sh, 1, &jobs, &acc, deadline);
+  rep.add_evals(acc.evals.load(Ordering::Relaxed));
 
-  let mut fails = std::mem::take(&mut *failures.lock());
+  let mut fails = std::mem::take(&mut *acc.failures.lock());
   fails.sort_by(|a, b| a.key.cmp(&b.key));
   let mut by_sig: BTreeMap<String, u64> = BTreeMap::new();
   let mut first_of_sig: BTreeMap<String, Value> = BTreeMap::new();
   for (i, f) in fails.iter().enumerate() {
+    let fsh = &fams[f.fam];
     let label = f.sig.unwrap_or("unexplained").to_string();
     *by_sig.entry(label.clone()).or_insert(0) += 1;
-    let docs: Vec<&str> = f.order.iter().map(|s| sh.shape_texts[*s].as_str()).collect();
+    let docs: Vec<&str> = f.order.iter().map(|s| fsh.shape_texts[*s].as_str()).collect();
     let what = format!("docs {} committed in chunks {}: {}", rle(&docs), rle(&f.layout), f.what);
     let first = !first_of_sig.contains_key(&label);
     if first {
       first_of_sig.insert(label, json!({"docs": rle(&docs), "layout": rle(&f.layout), "what": f.what}));
     }
-    let cj = if i < 64 || first { case_json(&sh, &f.order, &f.layout, f.spec) } else { Value::Null };
+    let cj = if i < 64 || first { case_json(fsh, &f.order, &f.layout, f.spec) } else { Value::Null };
     rep.fail(f.sig, &what, cj);
   }
-  for (sig, n) in dropped.lock().iter() {
+  for (sig, n) in acc.dropped.lock().iter() {
     *by_sig.entry(sig.unwrap_or("unexplained").to_string()).or_insert(0) += n;
     for _ in 0..*n {
       rep.fail(*sig, "further case of the same class (counted, not stored individually)", Value::Null);
     }
   }
 
-  let to = timed_out.load(Ordering::Relaxed);
-  let nl = listings.lock().len();
+  let to = acc.timed_out.load(Ordering::Relaxed);
+  let nl = acc.listings.lock().len();
   if nl < 2 {
     vcore::ev::machinery_failure("C22: fewer than 2 distinct outcomes observed (vacuous)");
   }
+  if m_byte_vs_char == 0 {
+    vcore::ev::machinery_failure("C22: family M has no case separating byte length from character count (vacuous)");
+  }
   let cov = vcore::cov! {
-    "distinct_nontrivial" => nontrivial.load(Ordering::Relaxed),
-    "rule" => "corpora = every multiset of 1..=N documents over 20 shapes (one token, or an unordered pair incl. a repeated token, over {ab, abc, abd, b, ba}); worlds = corpus x every ordered partition of its documents into commits (document order inside one commit not varied), no deletions; cases = world x 8 prefixes {a, ab, abc, abd, b, ba, c (non-prefix), Ab (upper-case)} x size 1..3 x 11 fuzzy settings (none; max_edits {1,2} x prefix_length {0,1} x min_length {1,3}; max_edits {1,2} with max_expansions 6), each case run twice. Family C: k = 24..=34 copies of the document \"ab abc\" committed one per segment vs. as one segment, same requests (2k (segment, term) pairs cross the default fuzzy cap 50 at k = 26 and the prefix scan cap 64 at k = 33 while only 2 terms match). A case is non-trivial when it returns at least one option and the admissible terms are a non-empty proper subset of the indexed terms.",
+    "distinct_nontrivial" => acc.nontrivial.load(Ordering::Relaxed),
+    "rule" => "Family M (first): 29 document shapes = 28 tokens carrying é / я / 日 / 𠮷 (2, 2, 3, 4 UTF-8 bytes) at the start, middle or end of the stem ab, their ASCII neighbours (ab, acb, aXc, aXbc, aX) and two double insertions, + one document with an emoji between two tokens; corpora = every single shape, every pair of shapes, the whole dictionary (token i in 1 + i % 3 documents), each as one segment and one document per segment (dictionary also in 3 chunks); cases = world x 32 typed texts (every token, Aéb, ab😀, a, aя) x size {1, 2, 30 (covering)} x 9 fuzzy settings (none; max_edits {1,2} x prefix_length {0,1} x min_length {1,3}), each run twice. Family A: corpora = every multiset of 1..=N documents over 20 shapes (one token, or an unordered pair incl. a repeated token, over {ab, abc, abd, b, ba}); worlds = corpus x every ordered partition of its documents into commits (document order inside one commit not varied), no deletions; cases = world x 8 prefixes {a, ab, abc, abd, b, ba, c (non-prefix), Ab (upper-case)} x size 1..3 x 11 fuzzy settings (none; max_edits {1,2} x prefix_length {0,1} x min_length {1,3}; max_edits {1,2} with max_expansions 6), each case run twice. Family C: k = 24..=34 copies of the document \"ab abc\" committed one per segment vs. as one segment, family A requests (2k (segment, term) pairs cross the default fuzzy cap 50 at k = 26 and the prefix scan cap 64 at k = 33 while only 2 terms match). A case is non-trivial when it returns at least one option and the admissible terms are a non-empty proper subset of the indexed terms.",
+    "family_m" => json!({
+      "corpora": m_jobs.len(), "worlds": m_worlds, "requests_per_world": fams[0].specs.len(), "cases": m_cases, "nontrivial_cases": m_nontrivial,
+      "cases_requiring_a_term_whose_byte_length_differs_by_more_than_max_edits": m_byte_vs_char,
+      "typed_text_x_term_pairs": mb_pair_stats(&fams[0]), "wall_s": m_wall,
+    }),
     "max_docs" => max_docs,
-    "corpora" => corpora.len(),
+    "corpora" => jobs.len() + m_jobs.len(),
     "family_c_corpora" => family_c,
-    "worlds" => worlds.load(Ordering::Relaxed),
-    "multi_segment_worlds" => multi_segment_worlds.load(Ordering::Relaxed),
-    "requests_per_world" => nspecs,
-    "cases_with_fewer_options_than_min_size_admissible_terms" => incomplete.load(Ordering::Relaxed),
-    "cases_whose_scores_differ_from_df_times_1_over_distance_plus_1" => score_disagree.load(Ordering::Relaxed),
+    "worlds" => acc.worlds.load(Ordering::Relaxed),
+    "multi_segment_worlds" => acc.multi_segment_worlds.load(Ordering::Relaxed),
+    "requests_per_world" => sh.specs.len(),
+    "cases_requiring_a_term_whose_byte_length_differs_by_more_than_max_edits" => acc.byte_vs_char.load(Ordering::Relaxed),
+    "cases_below_min_length_with_fewer_options_than_min_size_admissible_terms" => acc.incomplete.load(Ordering::Relaxed),
+    "cases_whose_scores_differ_from_df_times_1_over_distance_plus_1" => acc.score_disagree.load(Ordering::Relaxed),
     "distinct_observed_outcomes" => nl,
     "failures_by_signature" => by_sig,
     "first_witness_by_signature" => first_of_sig,
@@ -700,10 +926,11 @@ pub fn run(ctx: &Ctx) -> i32 {
     cov,
     vec![
       "the score value is not defined by README/docs (its example shows score 42.0 for doc_freq 3); only ordering, determinism, truncation- and layout-consistency of scores are demanded; agreement with df/(distance+1) is reported as coverage".into(),
-      "completeness (returning min(size, admissible terms) options) is not demanded: the statement says 'at most size'; e.g. fuzzy with a prefix shorter than min_length returns nothing. Counted in coverage".into(),
-      "fuzzy membership accepts a transposition as one edit (docs do not say which edit distance)".into(),
-      "the empty prefix, multi-token prefixes, keyword fields, deletions and the non-fuzzy scan cap (>= 64 entries) are left out".into(),
-      "max_expansions is only varied as 6 (> the 5 indexed terms) or left at its default 50: the statement promises layout independence while fewer terms than the scan cap match, which holds for every case here (at most 5 terms)".into(),
+      "completeness is demanded (min(size, qualifying terms) options; all qualifying terms when they fit) except for fuzzy requests whose typed text has fewer than min_length characters: what those return is not documented (the code returns nothing); counted in coverage".into(),
+      "edit distance is character-level Levenshtein for what must be offered; on the membership side a transposition is additionally accepted as one edit (docs do not say which edit distance)".into(),
+      "the empty prefix, typed texts that analyze to several tokens, keyword fields, deletions and the non-fuzzy scan cap (>= 64 entries) are left out".into(),
+      "max_expansions is only varied as 6 (> the 5 indexed terms of family A) or left at its default 50 (> the 28 terms of family M): every case has fewer qualifying terms than the scan cap".into(),
+      "only ASCII letters are case-folded by the default analyzer; upper-case non-ASCII typed text is left out".into(),
     ],
   )
 }
